@@ -41,6 +41,27 @@ CHECKS = {
         "Trusted: the Python-integer reference in vf/core/fixtures.py. Array lengths above the bound are not explored (kernels are per-byte loops).",
         "DESIGN.md section 3 C03",
     ),
+    "C04": (
+        "exploration",
+        "bounded-exhaustive enumeration of write/read round trips (depth x dtype x shape x value class; all series lengths)",
+        "Every (output depth, in-memory dtype, nsamps, nchans, value class) through prep_outfile/cwrite, every small block through "
+        "to_file and every series length 1..16(64) through .tim, .dat/.inf, .spec, .fft/.inf is written with the real writers, the "
+        "raw file size is compared with hdrlen + n*C*nbits/8, and the matching reader must return bit-identical values with "
+        "tsamp/tstart/dm preserved; a refusal (exception) is the only allowed alternative.",
+        "Only values representable at the output depth are written. .inf metadata compared to 1e-12 relative. Spectrum nsamples not asserted.",
+        "DESIGN.md section 3 C04",
+    ),
+    "C05": (
+        "exploration",
+        "grammar-directed exhaustive enumeration of header byte strings, field grids and (key,value) edits",
+        "(a) generated well-formed header byte strings (each key x value alphabet, all ordered pairs of optional keys, all permutations "
+        "of a key subset, full headers in several orders) must satisfy encode(parse(b)) == b with exact hdrlen; (b) Header -> prep_outfile "
+        "-> from_sigproc over coupled-field grids (8 RA x 26 Dec x 3 frames incl. declinations in (-1,0) deg, all telescope x backend ids, "
+        "channelisation/timing/nbits, names, beams, DM, angles); (c) every key (+unknown, +absent) x value alphabet through edit_header, "
+        "file compared byte-for-byte with /verif's own parser.",
+        "Well-formed = recognised ASCII keys, no duplicates, nchans>=1, nbits present, finite values. Sky position tolerance 0.01 arcsec.",
+        "DESIGN.md section 3 C05",
+    ),
 }
 
 ENGINES = [
